@@ -348,6 +348,48 @@ def run_hidden(n: int, res: Dict[str, Any]) -> None:
             sys.modules.pop('c05oracle_mod', None)
 
 
+def run_hidden_docs(n: int, res: Dict[str, Any]) -> None:
+    """For every hierarchy <= n classes with the member families m_P / d_{P,j} and every class j made HIDDEN as a whole (and every documented
+    definition made HIDDEN on its own): a member of another class that has no docstring still inherits the docstring attribute lookup along the
+    linearisation yields at run time - hiding an object takes it off the pages, not out of the program."""
+    from pydoctor import epydoc2stan
+    for k in range(2, n + 1):
+        for h in hierarchies(k):
+            if not any(h):
+                continue
+            py = pyclasses(h, 'md')
+            if any(c is None for c in py):
+                sys.modules.pop('c05oracle_mod', None)
+                continue
+            targets = [f'pk.h0.C{j}' for j in range(k)]
+            for j in range(k):
+                targets += [f'pk.h0.C{j}.{nm}' for nm in vars(py[j]) if nm.startswith('d_') and vars(py[j])[nm].__doc__]
+            for tname in targets:
+                s = pd.new_system({'privacy': [_hidden_rule(tname)]}, systemcls=pd.RecordingSystem)
+                b = s.systemBuilder(s)
+                b.addModuleString('', 'pk', is_package=True)
+                b.addModuleString(source(h, 'md'), 'h0', 'pk')
+                b.buildModules()
+                res['evals'] += 1
+                res['nontrivial'].add(core.h('hidden-docs', h, tname))
+                for ci in range(k):
+                    cls = s.allobjects[f'pk.h0.C{ci}']
+                    if not cls.isVisible:
+                        continue
+                    for nm, member in cls.contents.items():
+                        if not nm.startswith(('m_', 'd_')) or not member.isVisible:
+                            continue
+                        expdoc = inspect.getdoc(getattr(py[ci], nm))
+                        from pydoctor import model as _m
+                        gotdoc = epydoc2stan.get_docstring(member)[0] if hasattr(epydoc2stan, 'get_docstring') else _m.get_docstring(member)[0]
+                        if (gotdoc or None) != (expdoc or None):
+                            what = 'class' if tname.count('.') == 2 else 'member'
+                            res['violations'].append(core.violation(f'hidden-definer/inherited-doc/{what}-hidden', f'C{ci}.{nm} of {h} with {tname} hidden: docstring {gotdoc!r}, attribute lookup yields {expdoc!r}',
+                                                                    {'kind': 'hidden-docs', 'h': [list(x) for x in h], 'target': tname}))
+                            break
+            sys.modules.pop('c05oracle_mod', None)
+
+
 def _hidden_rule(name: str) -> Any:
     from pydoctor.utils import parse_privacy_tuple
     return parse_privacy_tuple(f'HIDDEN:{name}', '--privacy')
@@ -438,6 +480,7 @@ def jobs(tier: str) -> Iterable[Tuple[str, Any]]:
     for start in range(0, 160, 20):
         yield ('placed:classes<=5x2mods:cycle', ('placed5', start, 20))
     yield ('hidden-definer:classes<=3', ('hidden', 3))
+    yield ('hidden-definer-docs:classes<=3', ('hidden-docs', 3))
     # (5) mro.mro level, five classes (prefix = first 3 classes)
     for p in hierarchies(3):
         yield ('mro-level:classes<=5', ('mro', [list(b) for b in p], 5))
@@ -508,6 +551,8 @@ def run_job(job: Any, tier: str) -> Dict[str, Any]:
         core.bump(res, 'placed_executions', cnt)
     elif job[0] == 'hidden':
         run_hidden(job[1], res)
+    elif job[0] == 'hidden-docs':
+        run_hidden_docs(job[1], res)
     elif job[0] == 'mro':
         _, prefix, n = job
         mro_level([tuple(b) for b in prefix], n, res)
@@ -525,6 +570,9 @@ def replay(case: Dict[str, Any]) -> List[Dict[str, Any]]:
     v = case.get('variant', 'plain')
     if case['kind'] == 'hidden':
         run_hidden(len(h), res)
+        return [x for x in res['violations'] if x['case'] == case]
+    if case['kind'] == 'hidden-docs':
+        run_hidden_docs(len(h), res)
         return [x for x in res['violations'] if x['case'] == case]
     if v.startswith('placed'):
         run_placed(h, case['assign'], case['style'], case['order'], res)
